@@ -26,19 +26,96 @@ func ringIndexRule(c *Ctx) *RuleResult {
 	return prefixFilter(c.rule("R19", ruleR19), "R19", "RING: the ring slice is indexed only by start, end or (start+i) % capacity", 1, "R19b-index:")
 }
 
+// substrate: the structural rules of a container that other containers are built on. A property about the dependants
+// inherits them — a red-black tree that loses a key loses a TreeSet member and one direction of a TreeBidiMap pair.
+func substrate(c *Ctx, which string) []*RuleResult {
+	switch which {
+	case "rbt":
+		return []*RuleResult{
+			prefixFilter(c.rule("R11", ruleR11), "R11", "substrate red-black tree: parent links mirror child links", 10, "R11:trees/redblacktree"),
+			prefixFilter(c.rule("R10", ruleR10), "R10", "substrate red-black tree: rotations, fix-up arms, Put/lookup arms are mirror images", 8, "R10:trees/redblacktree.Tree.rotate", "R10:trees/redblacktree.Tree.insertCase", "R10:trees/redblacktree.Tree.deleteCase", "R10:trees/redblacktree.Tree.replaceNode", "R10:trees/redblacktree.Node.sibling", "R10:trees/redblacktree.Tree.Put", "R10:trees/redblacktree.Tree.lookup"),
+			prefixFilter(c.rule("R34", ruleR34), "R34", "substrate red-black tree: rotations preserve the in-order sequence", 2, "R34:trees/redblacktree"),
+			prefixFilter(c.rule("R12", ruleR12), "R12", "substrate red-black tree: the size counter moves only with the structure", 4, "R12b:trees/redblacktree", "R12c:trees/redblacktree", "R12d:trees/redblacktree", "R12e:trees/redblacktree"),
+			prefixFilter(c.rule("R13", ruleR13), "R13", "substrate red-black tree: descents use the comparator's full verdict with one orientation; no Go operators on keys", 4, "R13a:trees/redblacktree", "R13b:trees/redblacktree"),
+			prefixFilter(c.rule("R21", ruleR21), "R21", "substrate red-black tree: insert/delete fix-up chains are wired on every path", 6, "R21:rbt."),
+			prefixFilter(c.rule("R28", ruleR28), "R28", "substrate red-black tree: Remove replaces a node by its only child / hands over the in-order predecessor", 1, "R28:trees/redblacktree"),
+		}
+	case "dll":
+		return []*RuleResult{
+			prefixFilter(c.rule("R25", ruleR25), "R25", "substrate doubly linked list: next/prev are stored in pairs", 3, "R25:lists/doublylinkedlist"),
+			prefixFilter(c.rule("R33", ruleR33), "R33", "substrate doubly linked list: index walks land on the requested element from either end", 5, "R33:lists/doublylinkedlist"),
+			prefixFilter(c.rule("R12", ruleR12), "R12", "substrate doubly linked list: the size counter moves only with the chain", 3, "R12b:lists/doublylinkedlist", "R12c:lists/doublylinkedlist", "R12e:lists/doublylinkedlist"),
+			prefixFilter(c.rule("R5", ruleR5), "R5", "substrate doubly linked list: index parameters are range-checked before use", 4, "R5a:lists/doublylinkedlist", "R5b:lists/doublylinkedlist"),
+		}
+	case "sll":
+		return []*RuleResult{
+			prefixFilter(c.rule("R33", ruleR33), "R33", "substrate singly linked list: index walks land on the requested element", 5, "R33:lists/singlylinkedlist"),
+			prefixFilter(c.rule("R12", ruleR12), "R12", "substrate singly linked list: the size counter moves only with the chain", 3, "R12b:lists/singlylinkedlist", "R12c:lists/singlylinkedlist", "R12e:lists/singlylinkedlist"),
+			prefixFilter(c.rule("R27", ruleR27), "R27", "substrate singly linked list: an emptied list resets the ends its operations rely on", 1, "R27:lists/singlylinkedlist"),
+			prefixFilter(c.rule("R5", ruleR5), "R5", "substrate singly linked list: index parameters are range-checked before use", 4, "R5a:lists/singlylinkedlist", "R5b:lists/singlylinkedlist"),
+		}
+	case "arraylist":
+		return []*RuleResult{
+			prefixFilter(c.rule("R30", ruleR30), "R30", "substrate array list: every method moves the length (= Size()) exactly as its meaning says", 25, "R30:lists/arraylist"),
+			prefixFilter(c.rule("R5", ruleR5), "R5", "substrate array list: index parameters are range-checked before use", 4, "R5a:lists/arraylist", "R5b:lists/arraylist"),
+		}
+	}
+	return nil
+}
+
+func withSubstrates(c *Ctx, own []*RuleResult, which ...string) []*RuleResult {
+	// one RuleResult per rule name: merge the substrate filters of a rule that the property already lists into one entry
+	out := append([]*RuleResult(nil), own...)
+	for _, w := range which {
+		for _, r := range substrate(c, w) {
+			merged := false
+			for _, o := range out {
+				if o.Rule == r.Rule {
+					seen := map[string]bool{}
+					for _, ob := range o.Obs {
+						seen[ob.Key] = true
+					}
+					cp := *o
+					cp.Obs = append([]Obligation(nil), o.Obs...)
+					for _, ob := range r.Obs {
+						if !seen[ob.Key] {
+							cp.Obs = append(cp.Obs, ob)
+						}
+					}
+					if len(cp.Obs) > len(o.Obs) {
+						cp.Floor = o.Floor + r.Floor
+						cp.Title = o.Title + " + " + strings.TrimPrefix(r.Title, "substrate ")
+					}
+					for i := range out {
+						if out[i] == o {
+							out[i] = &cp
+						}
+					}
+					merged = true
+					break
+				}
+			}
+			if !merged {
+				out = append(out, r)
+			}
+		}
+	}
+	return out
+}
+
 func init() {
 	properties["C01"] = propDef{run: func(c *Ctx) *PropertyRun {
-		return pr("other", "Decided: (R12b–e) the cached size of every tree moves only with the structure — replace-on-equal paths of Put touch neither counter nor links and report 'nothing added', decrements are guarded by 'found', increments travel with allocate-and-link; (R11) every child-link store has its parent-link twin; (R10) the red-black rotations and fix-up arms are mirror images; (R15) LinkedHashMap table and order list gain/lose a key on the same paths; (R16) BidiMap pairing; (R24) HashMap is the Go map; (R20) TreeMap delegates each operation to the same-named tree operation; (R13a) every comparator-driven descent (Put, Get, Remove, lookup of all three trees) branches on the comparator's full int result with one orientation — lookups and insertions take the same way down (a narrowed or re-oriented verdict in one of them loses keys); (R32) the B-tree's hand-written slice surgery keeps its indices consistent: a shift by one opens a gap that is filled at that index after growing by one, or closes one before truncating by one, and a split partitions entries into [:k] / [k+1:] with entry k moving up and children divided at k+1; (R34) rotations preserve the in-order sequence of the subtree they re-hang (symbolic-heap replay of every path; catches mistakes that are symmetric in both directions, which the mirror rule cannot see). Not decided: that a lookup after an arbitrary history finds the last value — the correctness of the red-black / AVL / B-tree algorithms themselves (which case fires for which shape); a recolouring mistake that keeps links, counters and mirror arms consistent is not detected."+notBehaviour,
+		return pr("other", "Decided: (R12b–e) the cached size of every tree moves only with the structure — replace-on-equal paths of Put touch neither counter nor links and report 'nothing added', decrements are guarded by 'found', increments travel with allocate-and-link; (R11) every child-link store has its parent-link twin; (R10) the red-black rotations and fix-up arms are mirror images; (R15) LinkedHashMap table and order list gain/lose a key on the same paths; (R16) BidiMap pairing; (R24) HashMap is the Go map; (R20) TreeMap delegates each operation to the same-named tree operation; (R13a) every comparator-driven descent (Put, Get, Remove, lookup of all three trees) branches on the comparator's full int result with one orientation — lookups and insertions take the same way down (a narrowed or re-oriented verdict in one of them loses keys); (R32) the B-tree's hand-written slice surgery keeps its indices consistent: a shift by one opens a gap that is filled at that index after growing by one, or closes one before truncating by one, and a split partitions entries into [:k] / [k+1:] with entry k moving up and children divided at k+1; (R34) rotations preserve the in-order sequence of the subtree they re-hang (symbolic-heap replay of every path; catches mistakes that are symmetric in both directions, which the mirror rule cannot see); (R28) Remove replaces a node by one of its children only when the other is known nil, and a node with two children takes both key and value of its in-order neighbour, which is then the node unlinked (red-black Remove, AVL remove/removeMin). Not decided: that a lookup after an arbitrary history finds the last value — the correctness of the red-black / AVL / B-tree algorithms themselves (which case fires for which shape); a recolouring mistake that keeps links, counters and mirror arms consistent is not detected."+notBehaviour,
 			c.rule("R12", ruleR12), c.rule("R11", ruleR11),
 			prefixFilter(c.rule("R10", ruleR10), "R10", "MIRROR: red-black rotations, fix-up arms, Put/lookup arms; AVL GetNode/put/remove arms", 13, "R10:trees/redblacktree.Tree.rotate", "R10:trees/redblacktree.Tree.insertCase", "R10:trees/redblacktree.Tree.deleteCase", "R10:trees/redblacktree.Tree.replaceNode", "R10:trees/redblacktree.Node.sibling", "R10:trees/redblacktree.Tree.Put", "R10:trees/redblacktree.Tree.lookup", "R10:trees/avltree.Tree.GetNode", "R10:trees/avltree.Tree.put", "R10:trees/avltree.Tree.remove"),
 			prefixFilter(c.rule("R15", ruleR15), "R15", "LINKED: LinkedHashMap table ↔ order list", 5, "R15a:maps/linkedhashmap", "R15b:maps/linkedhashmap", "R15c:maps/linkedhashmap", "R15w:maps/linkedhashmap", "R15d:maps/linkedhashmap"),
 			c.rule("R16", ruleR16), prefixFilter(c.rule("R24", ruleR24), "R24", "HASH: HashMap is the Go map", 5, "R24:maps/hashmap"), rolesFor(c, "C01"),
 			prefixFilter(c.rule("R21b", ruleR21b), "R21b", "B-tree: rebalance is keyed by the node's own key", 1, "R21b:btree.rebalance-key"),
-			prefixFilter(c.rule("R13", ruleR13), "R13", "ORDER: comparator-driven descents use one orientation and the full verdict", 10, "R13a:"), c.rule("R32", ruleR32), c.rule("R34", ruleR34))
+			prefixFilter(c.rule("R13", ruleR13), "R13", "ORDER: comparator-driven descents use one orientation and the full verdict", 10, "R13a:"), c.rule("R32", ruleR32), c.rule("R34", ruleR34), c.rule("R28", ruleR28))
 	}}
 	properties["C02"] = propDef{run: func(c *Ctx) *PropertyRun {
 		return pr("other", "Decided: (R13a) all 10 comparator-driven descents relate probe and stored key with one orientation (less → left/low, greater → right/high, equal → found); (R13b) keys are never compared with Go operators in comparator-ordered packages; (R20) Min/Max/Floor/Ceiling/Values/Keys delegate to the matching tree operation; (R10) Floor↔Ceiling, Left↔Right, Min↔Max, iterator Next↔Prev, rotations and fix-up arms are mirror images under μ. (R34) the three rotation primitives (red-black rotateLeft/rotateRight with replaceNode expanded, the AVL tree's direction-parameterised rotate in both directions) are replayed over a symbolic heap on every path: the in-order sequence of the rotated subtree is the same before and after and it has exactly one new root. Not decided: that splits/merges/borrows of the B-tree and the successor/predecessor swaps of Remove preserve the in-order sequence; sortedness of Keys() as such; B-tree per-node binary-search bounds; behaviour under a comparator that is not a strict weak order."+notBehaviour,
-			c.rule("R13", ruleR13), rolesFor(c, "C02"), c.rule("R10", ruleR10), c.rule("R11", ruleR11), c.rule("R29", ruleR29), c.rule("R34", ruleR34),
+			c.rule("R13", ruleR13), rolesFor(c, "C02"), c.rule("R10", ruleR10), c.rule("R11", ruleR11), c.rule("R29", ruleR29), c.rule("R34", ruleR34), c.rule("R28", ruleR28),
 			prefixFilter(c.rule("R21b", ruleR21b), "R21b", "B-tree: rebalance is keyed by the node's own key", 1, "R21b:btree.rebalance-key"))
 	}}
 	properties["C03"] = propDef{run: func(c *Ctx) *PropertyRun {
@@ -49,24 +126,32 @@ func init() {
 			rolesFor(c, "C03"))
 	}}
 	properties["C04"] = propDef{run: func(c *Ctx) *PropertyRun {
-		return pr("other", "Decided: (R15) LinkedHashSet's table and order list gain/lose a member on exactly the same paths, with the membership test inside the loop (a duplicate inside one Add call is covered); (R24) HashSet.Add/Remove are one Go-map assignment/delete per argument; (R20) TreeSet delegates Add→Put, Remove→Remove, Contains→Get, Size→Size, Values→Keys, Clear→Clear; (R23c) Contains(xs...) of all three sets advances only after a hit, returns false only after a miss and true only when all values were found (true for no arguments); (R12f) Empty/Size/Values length derive from one size term; (R13b) TreeSet never orders or equates elements with Go operators (`<`, `==` call NaN equal to everything / unequal to itself) — only through the comparator, and its default comparator is cmp.Compare. Not decided: Go map semantics (trusted); TreeSet inherits C01's remainder."+notBehaviour,
-			prefixFilter(c.rule("R15", ruleR15), "R15", "LINKED: LinkedHashSet table ↔ order list", 5, "R15a:sets/linkedhashset", "R15b:sets/linkedhashset", "R15c:sets/linkedhashset", "R15w:sets/linkedhashset", "R15d:sets/linkedhashset"),
-			prefixFilter(c.rule("R24", ruleR24), "R24", "HASH: HashSet is the Go map", 2, "R24:sets/hashset"),
-			prefixFilter(c.rule("R23", ruleR23), "R23", "MEMBERSHIP: Contains(xs...) of the three sets", 3, "R23c:sets/"),
-			prefixFilter(c.rule("R12", ruleR12), "R12", "SIZE: Empty/Size/Values of the three sets", 6, "R12f:sets/"),
-			prefixFilter(c.rule("R13", ruleR13), "R13", "ORDER: TreeSet never compares elements with Go operators, only through the comparator", 1, "R13b:sets/treeset"),
-			rolesFor(c, "C04"))
+		return pr("other", "Decided: (R15) LinkedHashSet's table and order list gain/lose a member on exactly the same paths, with the membership test inside the loop (a duplicate inside one Add call is covered); (R24) HashSet.Add/Remove are one Go-map assignment/delete per argument; (R20) TreeSet delegates Add→Put, Remove→Remove, Contains→Get, Size→Size, Values→Keys, Clear→Clear; (R23c) Contains(xs...) of all three sets advances only after a hit, returns false only after a miss and true only when all values were found (true for no arguments); (R12f) Empty/Size/Values length derive from one size term; (R13b) TreeSet never orders or equates elements with Go operators (`<`, `==` call NaN equal to everything / unequal to itself) — only through the comparator, and its default comparator is cmp.Compare; the same holds for the red-black tree that stores it, whose Put/lookup/Floor/Ceiling descents (R13a) decide 'same member' by the comparator's == 0 alone. Not decided: Go map semantics (trusted); TreeSet inherits C01's remainder. Inherited (substrate): TreeSet is stored in a red-black tree and LinkedHashSet's order in a doubly linked list — the structural clauses of those two (parent links, mirror arms, rotations' in-order preservation, fix-up wiring, size counters, comparator discipline; next/prev pairing, index walks, index guards) are part of this check."+notBehaviour,
+			withSubstrates(c, []*RuleResult{
+				prefixFilter(c.rule("R15", ruleR15), "R15", "LINKED: LinkedHashSet table ↔ order list", 5, "R15a:sets/linkedhashset", "R15b:sets/linkedhashset", "R15c:sets/linkedhashset", "R15w:sets/linkedhashset", "R15d:sets/linkedhashset"),
+				prefixFilter(c.rule("R24", ruleR24), "R24", "HASH: HashSet is the Go map", 2, "R24:sets/hashset"),
+				prefixFilter(c.rule("R23", ruleR23), "R23", "MEMBERSHIP: Contains(xs...) of the three sets", 3, "R23c:sets/"),
+				prefixFilter(c.rule("R12", ruleR12), "R12", "SIZE: Empty/Size/Values of the three sets", 6, "R12f:sets/"),
+				prefixFilter(c.rule("R13", ruleR13), "R13", "ORDER: TreeSet and the red-black tree under it never compare elements with Go operators; the tree's descents use the comparator's full verdict with one orientation", 5, "R13b:sets/treeset", "R13b:trees/redblacktree", "R13a:trees/redblacktree"),
+				rolesFor(c, "C04"),
+			}, "rbt", "dll")...)
 	}}
 	properties["C05"] = propDef{run: func(c *Ctx) *PropertyRun {
-		return pr("other", "Decided: (R19a) each stack pushes and pops at the same end of its list, each queue enqueues at the tail and dequeues at the head, Peek and Pop/Dequeue read the same index and Pop/Dequeue removes the index it read; (R19b) ring: every advance of start/end is paired with its wrap on every path, the ring slice is indexed only through start/end/(start+i)%capacity, Enqueue on a full ring evicts before writing and never otherwise, Dequeue/Peek on an empty ring change nothing and return (zero,false); (R12f) Full() ≡ Size()==capacity, Empty ≡ Size()==0; (R12b,c) the ring's size; (R20) the adapters' Size/Empty/Clear/Values delegate to the list. Not decided: the order of values as such (list semantics, C03's remainder); calculateSize arithmetic; agreement of ArrayStack.Values() order with removal order (reversed fill needs affine index reasoning)."+notBehaviour,
-			c.rule("R19", ruleR19), c.rule("R27", ruleR27),
-			prefixFilter(c.rule("R12", ruleR12), "R12", "SIZE: ring counter, Full/Empty/Values of stacks and queues", 16, "R12b:queues/circularbuffer", "R12c:queues/circularbuffer", "R12e:queues/circularbuffer", "R12f:queues/", "R12f:stacks/"),
-			rolesFor(c, "C05"))
+		return pr("other", "Decided: (R19a) each stack pushes and pops at the same end of its list, each queue enqueues at the tail and dequeues at the head, Peek and Pop/Dequeue read the same index and Pop/Dequeue removes the index it read; (R19b) ring: every advance of start/end is paired with its wrap on every path, the ring slice is indexed only through start/end/(start+i)%capacity, Enqueue on a full ring evicts before writing and never otherwise, Dequeue/Peek on an empty ring change nothing and return (zero,false); (R12f) Full() ≡ Size()==capacity, Empty ≡ Size()==0; (R12b,c) the ring's size; (R20) the adapters' Size/Empty/Clear/Values delegate to the list; (R30) the array list under ArrayStack and ArrayQueue never pads or truncates (length algebra of C03); (R19a-values) Values() is the list's order for head removal and its exact reverse for tail removal. Not decided: the order of values as such (list semantics, C03's remainder); calculateSize arithmetic; agreement of ArrayStack.Values() order with removal order (reversed fill needs affine index reasoning). Inherited (substrate): the array list under ArrayStack/ArrayQueue/(heap) and the singly linked list under LinkedListStack/LinkedListQueue — length algebra and index guards; index walks, size counter, reset of the ends on emptying."+notBehaviour,
+			withSubstrates(c, []*RuleResult{
+				c.rule("R19", ruleR19), c.rule("R27", ruleR27), prefixFilter(c.rule("R30", ruleR30), "R30", "LENGTH: the array list under ArrayStack and ArrayQueue", 25, "R30:lists/arraylist"),
+				prefixFilter(c.rule("R12", ruleR12), "R12", "SIZE: ring counter, Full/Empty/Values of stacks and queues", 16, "R12b:queues/circularbuffer", "R12c:queues/circularbuffer", "R12e:queues/circularbuffer", "R12f:queues/", "R12f:stacks/"),
+				rolesFor(c, "C05"),
+			}, "arraylist", "sll")...)
 	}}
 	properties["C06"] = propDef{run: func(c *Ctx) *PropertyRun {
-		return pr("other", "Decided: (R8) the loaders of BinaryHeap and PriorityQueue insert through the heap's own insertion path (Push re-heapifies) — the defect named in the property; (R22) Peek reads slot 0; Pop returns slot 0 read before Swap(0,n-1); Remove(n-1); bubbleDown and leaves an empty heap alone; Push(v) = Add; bubbleUp and Push(vs...) = Add*; bubbleDownIndex(i) for i from n/2 down to 0; the sift routines swap only on a strict comparator verdict and follow the element they move; Values() is filled from the heap's own iterator; the queue's heap is built with the queue's comparator; (R20) PriorityQueue delegates every operation to the heap. Not decided: the heap order itself (sift index arithmetic, comparator signs — a sign flip fails the existing 10 000-element test), multiset preservation, level-sorted iterator values."+notBehaviour,
-			prefixFilter(c.rule("R8", ruleR8), "R8", "LOADER: heap / priority-queue FromJSON", 6, "R8:trees/binaryheap", "R8a:trees/binaryheap", "R8b:trees/binaryheap", "R8c:trees/binaryheap", "R8d:trees/binaryheap", "R8e:trees/binaryheap", "R8:queues/priorityqueue", "R8e:queues/priorityqueue"),
-			c.rule("R22", ruleR22), rolesFor(c, "C06"))
+		return pr("other", "Decided: (R8) the loaders of BinaryHeap and PriorityQueue insert through the heap's own insertion path (Push re-heapifies) — the defect named in the property; (R22) Peek reads slot 0; Pop returns slot 0 read before Swap(0,n-1); Remove(n-1); bubbleDown and leaves an empty heap alone; Push(v) = Add; bubbleUp and Push(vs...) = Add*; bubbleDownIndex(i) for i from n/2 down to 0; the sift routines swap only on a strict comparator verdict and follow the element they move; Values() is filled from the heap's own iterator; the queue's heap is built with the queue's comparator; (R20) PriorityQueue delegates every operation to the heap; (R13b) neither package compares elements with Go operators — their default comparator is cmp.Compare, not a hand-written `<`/`>` that calls NaN equal to everything; (R30) the array list that stores the heap never pads or truncates its contents (length algebra of C03). Not decided: the heap order itself (sift index arithmetic, comparator signs — a sign flip fails the existing 10 000-element test), multiset preservation, level-sorted iterator values. Inherited (substrate): the array list that stores the heap — length algebra and index guards."+notBehaviour,
+			withSubstrates(c, []*RuleResult{
+				prefixFilter(c.rule("R8", ruleR8), "R8", "LOADER: heap / priority-queue FromJSON", 6, "R8:trees/binaryheap", "R8a:trees/binaryheap", "R8b:trees/binaryheap", "R8c:trees/binaryheap", "R8d:trees/binaryheap", "R8e:trees/binaryheap", "R8:queues/priorityqueue", "R8e:queues/priorityqueue"),
+				c.rule("R22", ruleR22), rolesFor(c, "C06"),
+				prefixFilter(c.rule("R13", ruleR13), "R13", "ORDER: heap and priority queue never compare elements with Go operators, only through the comparator", 2, "R13b:trees/binaryheap", "R13b:queues/priorityqueue"),
+				prefixFilter(c.rule("R30", ruleR30), "R30", "LENGTH: the array list that stores the heap", 25, "R30:lists/arraylist"),
+			}, "arraylist")...)
 	}}
 	properties["C07"] = propDef{run: func(c *Ctx) *PropertyRun {
 		return pr("other", "Decided: (R11) parent links mirror child links — a sentence of the statement itself: every child-link store in the three trees is paired with the parent-link store on the same path; (R21) the rebalancing machinery is wired on every path: red-black Put/Remove pass insertCase1/deleteCase1, the case chains hand over without dropping out; AVL balance factors are written only by the fix/rotation family, direct link changes report 'height changed', every reported change is answered by putFix/removeFix on the frame's own link and passed up, rotations are stored back; B-tree nodes that gained an entry go to split, nodes that lost one go to rebalance (or are a lending sibling / the collapsing root), borrow and merge move children with entries; (R32) insert/delete shifts and the split partition keep their indices consistent (no entry or child lost or duplicated). Not decided: every numeric claim — comparator-call bounds, height bounds, min/max occupancy, equal leaf depth, colour invariants; these quantify over reachable shapes and no sound static argument in reach bounds them."+notBehaviour,
@@ -80,25 +165,36 @@ func init() {
 			filter(c.rule("R1", ruleR1), "R1", "PURE: iterator methods write only the iterator", 150, func(o Obligation) bool { return strings.Contains(o.Key, "Iterator).") }))
 	}}
 	properties["C09"] = propDef{run: func(c *Ctx) *PropertyRun {
-		return pr("other", "Decided in full as a who-may-call / pairing property: (R15a) the order list is mutated only by Append under 'key not in table', Remove(IndexOf(key)) under 'key in table' together with delete(table,key), and Clear together with clearing the table — so an existing key is never moved and a re-inserted key goes last; (R15b) table and list change on exactly the same paths; (R15c) every enumerator (Keys, Values, iterator, Each…, String, ToJSON) walks the list and never ranges over the Go map; (R15w) the two fields are assigned only in constructors/Clear; of the order list itself (a doubly linked list): (R33) its index walks keep pointer and counter in step and land on the requested index from either end, (R25) next/prev are stored in pairs. Not decided: the rest of doublylinkedlist.Append/Remove/IndexOf (C03's remainder)."+notBehaviour,
-			c.rule("R15", ruleR15),
-			prefixFilter(c.rule("R33", ruleR33), "R33", "WALK: the order list's index walks (Remove(IndexOf(key)) unlinks the element at that index)", 3, "R33:lists/doublylinkedlist"),
-			prefixFilter(c.rule("R25", ruleR25), "R25", "DLINK: the order list's next/prev links are stored in pairs", 3, "R25:lists/doublylinkedlist"))
+		return pr("other", "Decided in full as a who-may-call / pairing property: (R15a) the order list is mutated only by Append under 'key not in table', Remove(IndexOf(key)) under 'key in table' together with delete(table,key), and Clear together with clearing the table — so an existing key is never moved and a re-inserted key goes last; (R15b) table and list change on exactly the same paths; (R15c) every enumerator (Keys, Values, iterator, Each…, String, ToJSON) walks the list and never ranges over the Go map; (R15w) the two fields are assigned only in constructors/Clear; of the order list itself (a doubly linked list): (R33) its index walks keep pointer and counter in step and land on the requested index from either end, (R25) next/prev are stored in pairs. Not decided: the rest of doublylinkedlist.Append/Remove/IndexOf (C03's remainder). Inherited (substrate): the doubly linked list that keeps the order — next/prev pairing, index walks, size counter, index guards."+notBehaviour,
+			withSubstrates(c, []*RuleResult{
+				c.rule("R15", ruleR15),
+				prefixFilter(c.rule("R33", ruleR33), "R33", "WALK: the order list's index walks (Remove(IndexOf(key)) unlinks the element at that index)", 3, "R33:lists/doublylinkedlist"),
+				prefixFilter(c.rule("R25", ruleR25), "R25", "DLINK: the order list's next/prev links are stored in pairs", 3, "R25:lists/doublylinkedlist"),
+			}, "dll")...)
 	}}
 	properties["C10"] = propDef{run: func(c *Ctx) *PropertyRun {
-		return pr("other", "Decided: (R16) for both BidiMaps, on every path of Put the pair held by the key is evicted from the inverse map by the looked-up value and the pair holding the value is evicted from the forward map by the looked-up key, exactly when the respective lookup found something, and both evictions precede both insertions (key→value forward, value→key inverse); Remove deletes both directions in one found-guarded region, the inverse one keyed by the looked-up value, and does nothing for an absent key; Clear clears both; Get/Size/Keys read the forward map, GetKey/Values the inverse map; (R8) their loaders insert through Put; of the red-black tree that carries both directions of TreeBidiMap: (R11) every child-link store has its parent-link twin and (R10) the rotations are mirror images (a stale Parent makes Remove and enumeration disagree with Get/GetKey). Not decided: the rest of the underlying map/tree correctness (C01's remainder)."+notBehaviour,
-			c.rule("R16", ruleR16),
-			prefixFilter(c.rule("R11", ruleR11), "R11", "PARENTLINK: the red-black tree under both directions of TreeBidiMap", 10, "R11:trees/redblacktree"),
-			prefixFilter(c.rule("R10", ruleR10), "R10", "MIRROR: red-black rotations under TreeBidiMap", 1, "R10:trees/redblacktree.Tree.rotate"),
-			prefixFilter(c.rule("R8", ruleR8), "R8", "LOADER: BidiMap FromJSON inserts through Put", 10, "R8:maps/hashbidimap", "R8a:maps/hashbidimap", "R8b:maps/hashbidimap", "R8c:maps/hashbidimap", "R8d:maps/hashbidimap", "R8:maps/treebidimap", "R8a:maps/treebidimap", "R8b:maps/treebidimap", "R8c:maps/treebidimap", "R8d:maps/treebidimap"))
+		return pr("other", "Decided: (R16) for both BidiMaps, on every path of Put the pair held by the key is evicted from the inverse map by the looked-up value and the pair holding the value is evicted from the forward map by the looked-up key, exactly when the respective lookup found something, and both evictions precede both insertions (key→value forward, value→key inverse); Remove deletes both directions in one found-guarded region, the inverse one keyed by the looked-up value, and does nothing for an absent key; Clear clears both; Get/Size/Keys read the forward map, GetKey/Values the inverse map; (R8) their loaders insert through Put; of the red-black tree that carries both directions of TreeBidiMap: (R11) every child-link store has its parent-link twin and (R10) the rotations are mirror images (a stale Parent makes Remove and enumeration disagree with Get/GetKey). Not decided: the rest of the underlying map/tree correctness (C01's remainder). Inherited (substrate): the red-black tree that carries both directions of TreeBidiMap — parent links, mirror arms, rotations' in-order preservation, fix-up wiring, size counter, comparator discipline."+notBehaviour,
+			withSubstrates(c, []*RuleResult{
+				c.rule("R16", ruleR16),
+				prefixFilter(c.rule("R11", ruleR11), "R11", "PARENTLINK: the red-black tree under both directions of TreeBidiMap", 10, "R11:trees/redblacktree"),
+				prefixFilter(c.rule("R10", ruleR10), "R10", "MIRROR: red-black rotations under TreeBidiMap", 1, "R10:trees/redblacktree.Tree.rotate"),
+				prefixFilter(c.rule("R8", ruleR8), "R8", "LOADER: BidiMap FromJSON inserts through Put", 10, "R8:maps/hashbidimap", "R8a:maps/hashbidimap", "R8b:maps/hashbidimap", "R8c:maps/hashbidimap", "R8d:maps/hashbidimap", "R8:maps/treebidimap", "R8a:maps/treebidimap", "R8b:maps/treebidimap", "R8c:maps/treebidimap", "R8d:maps/treebidimap"),
+			}, "rbt")...)
 	}}
 	properties["C11"] = propDef{run: func(c *Ctx) *PropertyRun {
 		return pr("other", "Decided: (R9a) all 42 MarshalJSON/UnmarshalJSON are pure forwarders to ToJSON/FromJSON; (R9b) ToJSON serialises the logical view (Values(), the own iterator, a storage field that Values() copies, or the field FromJSON/Size delegate to) — never physical storage whose meaning needs other fields; (R9c) writer and reader use the same JSON kind and it is the kind the property assigns; (R9d) the slice handed to json.Marshal is never nil (an empty value container is [], not null); (R9e) hand-written objects use string keys; (R9f) the raw input of FromJSON reaches only the JSON decoder; (R8e) a forwarding loader is sound for its type; (R19b-index) the ring's Values() — what its ToJSON marshals — reads the slots (start+i) % capacity. Not decided: equality of the reloaded contents (follows from C01–C06 + R8 only informally); element encodability."+notBehaviour,
 			c.rule("R9", ruleR9), c.rule("R8", ruleR8), ringIndexRule(c))
 	}}
 	properties["C12"] = propDef{run: func(c *Ctx) *PropertyRun {
-		return pr("other", "Decided: for all 21 FromJSON — loaders decode into a fresh temporary, never live memory (R8a: atomic on error, replace not merge); every write to the receiver is guarded by err == nil (R8b); the receiver's Clear dominates every insertion (R8c: no prior element survives); elements enter only through the container's own exported insertion methods (R8d: sets deduplicate, trees sort, BidiMaps stay one-to-one, the ring keeps the last capacity-many, the heap re-heapifies — by the guarantees of those methods); forwarding loaders are sound because every insertion method of the type is a pure forwarder to the same field (R8e); (R6) a Go-map field that is assigned to can never become nil (the input null cannot make a later Put panic). Not decided: arbitrary follow-up operation sequences beyond 'inserted through the own insertion method' (then C01/C04 apply)."+notBehaviour,
-			c.rule("R8", ruleR8), c.rule("R6", ruleR6), controlFor(c, "R6", "R8"))
+		return pr("other", "Decided: for all 21 FromJSON — loaders decode into a fresh temporary, never live memory (R8a: atomic on error, replace not merge); every write to the receiver is guarded by err == nil (R8b); the receiver's Clear dominates every insertion (R8c: no prior element survives); elements enter only through the container's own exported insertion methods (R8d: sets deduplicate, trees sort, BidiMaps stay one-to-one, the ring keeps the last capacity-many, the heap re-heapifies — by the guarantees of those methods); forwarding loaders are sound because every insertion method of the type is a pure forwarder to the same field (R8e); (R6) a Go-map field that is assigned to can never become nil (the input null cannot make a later Put panic). and the insertion methods themselves carry their structural clauses here (R22 Push re-heapifies the whole heap, R19b the ring's Enqueue, R16put the BidiMaps' Put, R15a/b the linked hash containers, R24 the hash containers, R30 the array list's Add). Not decided: arbitrary follow-up operation sequences beyond 'inserted through the own insertion method' (then C01/C04 apply)."+notBehaviour,
+			c.rule("R8", ruleR8), c.rule("R6", ruleR6), controlFor(c, "R6", "R8"),
+			// the insertion paths the loaders rely on (R8d hands every decoded element to them)
+			prefixFilter(c.rule("R22", ruleR22), "R22", "insertion path of the heap loaders: Push appends and re-heapifies the whole heap", 1, "R22:trees/binaryheap.Heap.Push"),
+			prefixFilter(c.rule("R19", ruleR19), "R19", "insertion path of the ring loader: Enqueue wraps, evicts and keeps the size in step", 5, "R19b-"),
+			prefixFilter(c.rule("R16", ruleR16), "R16", "insertion path of the BidiMap loaders: Put keeps the map one-to-one", 2, "R16put:"),
+			prefixFilter(c.rule("R15", ruleR15), "R15", "insertion path of the linked hash loaders: table and order list gain a key together", 4, "R15a:", "R15b:"),
+			prefixFilter(c.rule("R24", ruleR24), "R24", "insertion path of the hash loaders: Put/Add are the Go-map assignment", 2, "R24:maps/hashmap.(*Map).Put", "R24:sets/hashset.(*Set).Add"),
+			prefixFilter(c.rule("R30", ruleR30), "R30", "insertion path of the array-backed loaders: Add grows the list by exactly the added values", 1, "R30:lists/arraylist.(*List).Add"))
 	}}
 	properties["C13"] = propDef{run: func(c *Ctx) *PropertyRun {
 		return pr("other", "Decided: (R18) for the three sets, Intersection has one loop per operand that adds the current element iff the other operand contains it (both arms, selected by comparing sizes), Union adds every element of both operands in two consecutive loops, Difference adds an element of the receiver iff the argument does not contain it; membership is tested on the right operand with the current element; the result is built by the set's constructor (TreeSet: with the operands' comparator, loops reachable only after the comparators were found identical); (R1) neither operand is written on any path — in particular when both are the same object; (R2d) the result embeds no pointer, slice or map of an operand. Not decided: membership exactness beyond the arm structure (rests on Contains/Add, C04)."+notBehaviour,
